@@ -282,6 +282,56 @@ def check_shapes(shard: dict, timeout: float) -> dict:
                 vec = sp.Matrix([sym.Sym(x).e for x in np.asarray(out._vec, dtype=object)])
                 if not _dec(res, 'get_statevector', vec - O * sp.Matrix(amps), atoms + amps, sh):
                     return res
+                # 3b. UnitaryBuilder directly: apply_right accumulates the product; eval_apply_right /
+                #     eval_apply_left / apply_left with a fresh atom matrix X on every op location
+                from bqskit.qis.unitary.unitarybuilder import UnitaryBuilder
+                from bqskit.qis.unitary.unitarymatrix import UnitaryMatrix
+                bld = UnitaryBuilder(n, rad)
+                for op, p0 in order:
+                    bld.apply_right(op.get_unitary(tsym[p0:p0 + op.num_params]), op.location)
+                if not _dec(res, 'UnitaryBuilder.apply_right product', sym.to_matrix(bld.get_unitary()) - O, atoms, sh):
+                    return res
+                for li, loc0 in enumerate(sh['ops'][:2]):
+                    X = AtomGate(90 + li, tuple(rad[q] for q in loc0), 0)
+                    XM = X.matrix([])
+                    Xarr = X.get_unitary()._utry
+                    xat = sorted(XM.free_symbols, key=lambda s_: s_.name)
+                    R = sym.to_matrix(np.asarray(bld.eval_apply_right(Xarr, loc0), dtype=object))
+                    if not _dec(res, 'eval_apply_right', R - embed(XM, list(loc0), rad) * O, atoms + xat, sh):
+                        return res
+                    L = sym.to_matrix(np.asarray(bld.eval_apply_left(Xarr, loc0), dtype=object))
+                    if not _dec(res, 'eval_apply_left', L - O * embed(XM, list(loc0), rad), atoms + xat, sh):
+                        return res
+                    b2 = UnitaryBuilder(n, rad)
+                    b2.tensor = bld.tensor.copy()
+                    b2.apply_left(X.get_unitary(), loc0)
+                    if not _dec(res, 'apply_left', sym.to_matrix(b2.get_unitary()) - O * embed(XM, list(loc0), rad),
+                                atoms + xat, sh):
+                        return res
+                    if all(r == 2 for r in rad):
+                        env = np.asarray(bld.calc_env_matrix(list(loc0)), dtype=object)
+                        k = len(loc0)
+                        E = sp.zeros(2 ** k, 2 ** k)
+                        rest = [q for q in range(n) if q not in loc0]
+                        for a in range(2 ** k):
+                            for b_ in range(2 ** k):
+                                tot = 0
+                                for r_ in range(2 ** len(rest)):
+                                    dr = [0] * n
+                                    dc = [0] * n
+                                    for j, q in enumerate(loc0):
+                                        dr[q] = (a >> (k - 1 - j)) & 1
+                                        dc[q] = (b_ >> (k - 1 - j)) & 1
+                                    for j, q in enumerate(rest):
+                                        bit = (r_ >> (len(rest) - 1 - j)) & 1
+                                        dr[q] = bit
+                                        dc[q] = bit
+                                    ri = int(''.join(map(str, dr)), 2)
+                                    ci = int(''.join(map(str, dc)), 2)
+                                    tot = tot + O[ri, ci]
+                                E[a, b_] = tot
+                        if not _dec(res, 'calc_env_matrix', sym.to_matrix(env) - E, atoms, sh):
+                            return res
                 # 4. nested: fold everything into one CircuitGate inside a wider/permuted circuit
                 if si % 4 == 0 and n <= 2:
                     outer_rad = list(rad) + [2]
@@ -338,6 +388,8 @@ GRAD_CASES = {
         ([2, 2, 2], [('RZZGate()', [2, 0]), ('U3Gate()', [1])]),
         ([2, 2, 2], [('CRYGate()', [0, 2]), ('RZZGate()', [1, 2])]),
         ([3], [('CKMGate()', [0])]),
+        ([3, 2], [('CKMGate()', [0]), ('U3Gate()', [1])]),
+        ([2, 3, 2], [('RZZGate()', [2, 0]), ('CKMGate()', [1])]),
     ],
     'thorough': [
         ([2, 2], [('U3Gate()', [0]), ('RZZGate()', [1, 0]), ('U3Gate()', [1])]),
